@@ -58,6 +58,7 @@ func runC10(c *runCtx) {
 	nearMiss := []member{
 		{"type", `["Feature"]`}, {"type", `"feature"`}, {"type", `{"type":"Feature"}`}, {"type", `"Feature "`}, {"type", `1`}, {"Type", `"Feature"`},
 		{"log", `[{"version":1}]`}, {"log", `{"x":{"version":1}}`}, {"log", `"version"`}, {"log", `{}`},
+		{"type", `{"name":"Point"}`}, {"type", `{"a":{"b":"Feature"}}`}, {"asset", `{"version":{"min":"2.0"}}`}, {"asset", `{"version":["2.0"]}`}, {"log", `{"x":{"entries":[]}}`},
 		{"asset", `{"version":2.0}`}, {"asset", `{"version":"3.0"}`}, {"asset", `[{"version":"2.0"}]`}, {"asset", `{"x":{"version":"2.0"}}`}, {"version", `"2.0"`},
 	}
 	ws := []string{"", " ", "\n  ", "\t", "\r\n", "\r", " \r\n\t"}
@@ -119,6 +120,10 @@ func runC10(c *runCtx) {
 		if pos >= 0 && pos < len(ends) {
 			// cut right after the deciding member's value, and somewhere later
 			c.c10Case("cut", x, uint32(ends[pos]))
+			// ... and at every byte of the layout (white space, the comma) between this member and the next
+			for k := ends[pos]; k < len(x) && strings.IndexByte(" \t\r\n,", x[k]) >= 0; k++ {
+				c.c10Case("cut", x, uint32(k+1))
+			}
 			// ... and right after a later complete member (no member is cut in the middle, so no
 			// potentially deciding member is partially inside the header)
 			if pos+1 < len(ends) {
